@@ -351,6 +351,53 @@ fn api_job(ctx: &Ctx, job: usize, iters: u64) -> Stats {
     st
 }
 
+/// The least and the greatest fixed point of ONE body (same bound name) side by side in one
+/// formula: each keeps its own meaning.
+fn both_kinds(ctx: &Ctx, st: &mut Stats) {
+    let mut rng = Rng::stream(ctx.seed, "C06.bothkinds", 0);
+    let names = ["a", "b", "c"];
+    let mut cfg = GenCfg::simple(&names, 2);
+    cfg.allow_fix = false;
+    let n = ctx.tier.pick(400u64, 6_000u64);
+    for i in 0..n {
+        let f = gen::render(&gen::gen_ast(&mut rng, &cfg), &mut rng, Style::Plain);
+        let g = gen::render(&gen::gen_ast(&mut rng, &cfg), &mut rng, Style::Plain);
+        // monotone in X by construction
+        let body = match i % 3 {
+            0 => format!("({}) | (X & ({}))", f, g),
+            1 => format!("({}) & (X | ({}))", f, g),
+            _ => format!("({}) | (exists a # (X & ({})))", f, g),
+        };
+        let text = match i % 4 {
+            0 => format!("(gfp X # {b}) & -(lfp X # {b})", b = body),
+            1 => format!("(mu X # {b}) <=> (nu X # {b})", b = body),
+            2 => format!("(lfp X # {b}) => (gfp X # {b})", b = body),
+            _ => format!("[lfp X # {b}, gfp X # {b}, a] = 2", b = body),
+        };
+        judge_both(st, &text);
+    }
+}
+
+fn judge_both(st: &mut Stats, text: &str) {
+    st.evals += 1;
+    let Ok(ast) = refsyn::parse_text(&text) else { return };
+    let Ok((rnames, want)) = crate::refsem::eval_formula(&ast) else { return };
+    st.bump("least_and_greatest_of_one_body");
+    let case = json!({"kind": "both-kinds", "text": text});
+    match engine_eval(text.as_bytes(), None, STEP_CAP, 10_000) {
+        EngineOut::Ok(ev) => match tt_of_named(&ev.result, &rnames) {
+        Ok(got) if got == want => {
+            st.nt.insert(util::hash_str(&text));
+        }
+        other => st.violate("c06.fixed-point", "C06:both-kinds:wrong-value".into(), format!("`{}` evaluates to {} (table {:?}), the reference table over {:?} is {}", text, short(&ev.result), other.map(|t| t.hex()), rnames, want.hex()), case),
+        },
+        EngineOut::EvalCaught(_, Caught::Budget("steps")) => st.bump("step_budget_exceeded(inconclusive case)"),
+        EngineOut::EvalCaught(_, c) => st.violate("c06.fixed-point", format!("C06:both-kinds:{}", c.signature()), format!("`{}`: {:?}", text, c), case),
+        EngineOut::Rejected(e) => st.violate("c06.fixed-point", "C06:both-kinds:rejected".into(), format!("`{}`: {}", text, e), case),
+        EngineOut::ParsePanic(c) => st.violate("c06.panic", format!("C06:both-kinds:{}", c.signature()), format!("`{}`: {:?}", text, c), case),
+    }
+}
+
 pub fn run(ctx: &Ctx) -> (Stats, Spec) {
     let mut st = Stats::new();
     let parts = util::par_jobs(32, |job| exhaustive_job(job, 32));
@@ -369,6 +416,7 @@ pub fn run(ctx: &Ctx) -> (Stats, Spec) {
     ] {
         check_fix_text(&mut st, t, "readme-and-scoping");
     }
+    both_kinds(ctx, &mut st);
     // LONG chains: the iteration walks through the assignments one per round (2^n rounds over n
     // variables — far more than the number of variables or names of the formula)
     for n in ctx.tier.pick(vec![3usize, 4], vec![2, 3, 4, 5]) {
@@ -387,7 +435,7 @@ pub fn run(ctx: &Ctx) -> (Stats, Spec) {
         }
     }
     let spec = Spec {
-        rule: "bodies from a polarity-tracking generator (X under and/or/ite branches/quantifiers/at-least counting/left list of >=/even negation; nested and mixed lfp/gfp up to depth 3; inner binders and quantifiers reusing the outer name; aliases mu/nu), every small tree as body, README identities, LONG chains (the fixed point of a walk through all 2^n assignments of 3-4 [quick] / 2-5 [thorough] variables, one per round, and its dual). For each: ALL functions over the other names (<= 3 names: 256 candidates; 4 names: 4096 sampled) are enumerated as competing (pre/post-)fixed points; the generated body's monotonicity is verified on all comparable pairs. API: fp(a, t) with random table-defined maps on the 16 functions of two variables whose orbit ends in a self-loop; the closure counts its applications and calls back into the environment; a quarter of the calls run in an environment whose symbol type has a constant Hash (every pair of same-shape diagrams collides), so that `mapped to itself` cannot be confused with `same hash`. distinct = text resp. (map, start); non-trivial = X occurs free, T depends on X and T has >= 2 fixed points.".into(),
+        rule: "bodies from a polarity-tracking generator (X under and/or/ite branches/quantifiers/at-least counting/left list of >=/even negation; nested and mixed lfp/gfp up to depth 3; inner binders and quantifiers reusing the outer name; aliases mu/nu), every small tree as body, README identities, the least and the greatest fixed point of ONE body (same bound name) side by side in one formula, LONG chains (the fixed point of a walk through all 2^n assignments of 3-4 [quick] / 2-5 [thorough] variables, one per round, and its dual). For each: ALL functions over the other names (<= 3 names: 256 candidates; 4 names: 4096 sampled) are enumerated as competing (pre/post-)fixed points; the generated body's monotonicity is verified on all comparable pairs. API: fp(a, t) with random table-defined maps on the 16 functions of two variables whose orbit ends in a self-loop; the closure counts its applications and calls back into the environment; a quarter of the calls run in an environment whose symbol type has a constant Hash (every pair of same-shape diagrams collides), so that `mapped to itself` cannot be confused with `same hash`. distinct = text resp. (map, start); non-trivial = X occurs free, T depends on X and T has >= 2 fixed points.".into(),
         assumptions: vec![
             "non-monotone or non-convergent bodies are never handed to the engine (it may legitimately loop; the README says so)".into(),
             "'evaluation terminates' is decided as: total fixed-point iterations <= 4 x the reference's count + 64 (a monotone chain cannot be longer than the lattice height)".into(),
@@ -400,6 +448,7 @@ pub fn run(ctx: &Ctx) -> (Stats, Spec) {
             ("inner_binder_reuses_outer_name".into(), 20, "shadowing by an inner fixed point never exercised".into()),
             ("fp_api_calls".into(), 1_000, "fp API never exercised".into()),
             ("long_chain_fixed_points".into(), 4, "long iteration chains never exercised".into()),
+            ("least_and_greatest_of_one_body".into(), 100, "lfp and gfp of one body side by side never exercised".into()),
             ("fp_api_calls_weak_hash_symbols".into(), 300, "fp over colliding hashes never exercised".into()),
         ],
     };
@@ -418,6 +467,12 @@ pub fn replay(_ctx: &Ctx, _monitor: &str, case: &Value, st: &mut Stats) {
             fp_orbit_case(st, [super::c03::WeakSym(3), super::c03::WeakSym(9)], &g, start, true);
         } else {
             fp_orbit_case(st, [3usize, usize::MAX], &g, start, false);
+        }
+        return;
+    }
+    if case.get("kind").and_then(|k| k.as_str()) == Some("both-kinds") {
+        if let Some(t) = case.get("text").and_then(|t| t.as_str()) {
+            judge_both(st, t);
         }
         return;
     }
